@@ -59,6 +59,21 @@ static void run_one(const unsigned char *s, int n, unsigned mask, int do_end){
       r = PFEED(p, buf + (b - a), ST); cur = -1;
 #endif
       { int iv = inv(); if (iv){ out8('V'); out8(iv); NINV++; } }
+#if INDIRECT
+      if (r == 0 && p != buf + (b - a)){ out8('V'); out8(201); NINV++; }   /* OK without consuming the whole chunk */
+      if (p < buf || p > buf + (b - a)){ out8('V'); out8(204); NINV++; }    /* pointer left the chunk */
+#endif
+      if (r == 1){  /* FAIL must be absorbing: same call again, and end(), still FAIL with the pointer unmoved */
+        const uint8_t *p2 = p; int r2;
+#if INDIRECT
+        if (p2 < buf + (b - a)){ r2 = PFEED(&p2, buf + (b - a), ST); if (r2 != 1 || p2 != p){ out8('V'); out8(202); NINV++; } }
+#else
+        r2 = PFEED(p2, buf + (b - a), ST); if (r2 != 1){ out8('V'); out8(202); NINV++; }
+#endif
+#if EOFS
+        r2 = PEND(ST); if (r2 != 1){ out8('V'); out8(203); NINV++; }
+#endif
+      }
       if (r == 0) break;
       if (r >= FIRST_YIELD){
         out8('Y'); out8(r); out32(cur);
